@@ -227,7 +227,8 @@ def late_call(end: int, provider_open: bool) -> bool:
     class _U:
         @staticmethod
         def uuid4():
-            return 7
+            import uuid as _uuid
+            return _uuid.UUID(int=7)             # a real id: the real encode_message must be able to frame it
     patch(asyncio=_A, uuid=_U)                   # the real stream_send_msg stays in place
     try:
         try:
